@@ -900,3 +900,259 @@ Proof.
   intros t ND. rewrite compress_recursion_visits. split; [|intro c; reflexivity].
   destruct (preorder t) as [|r l]; [constructor|]. cbn [tl]. inversion ND; assumption.
 Qed.
+
+(* ======================================================================= Part D: the GENERATED sweeps *)
+(* Gen/Trunc.v part 2 (translated from mps/mp.py, tn/tree.py): compress_idx_list, update_ms_bond,
+   compress_m_trunc, compress_dims, compress_node_m_trunc, tree_compress_events, tree_compress_dims.
+   They are shown equal to the bookkeeping models of Model/Trunc.v, then the limits are derived. *)
+
+Lemma rev_seq_1 : forall k, rev (seq 1 k) = map (fun i => (k - i)%nat) (seq 0 k).
+Proof.
+  induction k as [|k IH]; [reflexivity|].
+  rewrite seq_S, rev_app_distr. cbn [rev app]. rewrite IH.
+  cbn [seq map]. f_equal. rewrite <- seq_shift, map_map. apply map_ext. intro a. lia.
+Qed.
+
+Lemma gen_idx_list_eq : forall n to_right, compress_idx_list (Z.of_nat n) to_right = iter_idx_list n to_right.
+Proof.
+  intros n to_right. unfold compress_idx_list, mp_iter_idx_list, compress_qnidx, iter_idx_list.
+  destruct to_right; cbn [negb]; cbv zeta.
+  - unfold py_range. replace (Z.to_nat (Z.of_nat n - 1 - 0)) with (n - 1)%nat by lia.
+    apply map_ext. intro a. lia.
+  - unfold py_range_down. replace (Z.to_nat (Z.of_nat n - 1 - 0)) with (n - 1)%nat by lia.
+    rewrite rev_seq_1, map_map. apply map_ext_in. intros a Ha. apply in_seq in Ha. lia.
+Qed.
+
+Lemma update_ms_bond_eq : forall idx to_right, update_ms_bond idx to_right = cut_bond idx to_right.
+Proof. reflexivity. Qed.
+
+Lemma compress_dims_eq : forall cc n to_right temp spectrum dims,
+  compress_dims cc (Z.of_nat n) to_right temp spectrum dims
+  = sweep_dims (fun sigma idx l => compress_m_trunc cc l temp sigma idx) spectrum to_right (iter_idx_list n to_right) dims.
+Proof.
+  intros. unfold compress_dims, sweep_dims. rewrite gen_idx_list_eq. reflexivity.
+Qed.
+
+(* the limit that applies to bond b: max_dims[b] (criterion with a limit), temp list entry b, or the temp integer *)
+Definition limit_ok (cc : config) (temp : temp_arg) (b : Z) (d : Z) : Prop :=
+  match temp with
+  | TNone => cfg_criteria cc <> Threshold -> d <= py_index (cfg_max_dims cc) b
+  | TInt v => d <= v
+  | TList l => d <= py_index l b
+  end.
+
+Lemma limit_ok_le : forall cc temp b d d', d' <= d -> limit_ok cc temp b d -> limit_ok cc temp b d'.
+Proof. intros cc temp b d d' L H. destruct temp; cbn in *; [intro C; specialize (H C)| |]; lia. Qed.
+
+(* the kept count selected in MatrixProduct.compress obeys the limit of the bond that _update_ms cuts *)
+Lemma compress_m_trunc_limit : forall cc to_right temp sigma idx,
+  limit_ok cc temp (cut_bond idx to_right) (compress_m_trunc cc to_right temp sigma idx).
+Proof.
+  intros cc to_right temp sigma idx. destruct temp as [|v|l]; cbn [limit_ok compress_m_trunc]; cbv zeta.
+  - intro C. apply m_trunc_le_M. exact C.
+  - apply Z.le_min_l.
+  - unfold cut_bond. apply Z.le_min_l.
+Qed.
+
+Lemma compress_node_m_trunc_limit : forall cc temp sigma c,
+  limit_ok cc temp (Z.of_nat c) (compress_node_m_trunc cc temp sigma (Z.of_nat c)).
+Proof.
+  intros cc temp sigma c. destruct temp as [|v|l]; cbn [limit_ok compress_node_m_trunc]; cbv zeta.
+  - intro C. pose proof (m_trunc_le_M cc sigma (Z.of_nat c) false C) as H. unfold cut_bond in H. exact H.
+  - apply Z.le_min_l.
+  - apply Z.le_min_l.
+Qed.
+
+(* chains, every direction, every form of the limit: after the GENERATED compress sweep every interior bond
+   obeys its own limit *)
+Theorem gen_chain_dims_after_compress : forall cc n to_right temp spectrum dims0, length dims0 = S n ->
+  forall b, (1 <= b <= n - 1)%nat ->
+    limit_ok cc temp (Z.of_nat b) (nth b (compress_dims cc (Z.of_nat n) to_right temp spectrum dims0) 0).
+Proof.
+  intros cc n to_right temp spectrum dims0 L b Hb. rewrite compress_dims_eq.
+  destruct (chain_dims_after_compress_gen (fun sigma idx l => compress_m_trunc cc l temp sigma idx)
+              spectrum n to_right dims0 L b Hb) as [idx [_ [Hc ->]]].
+  eapply limit_ok_le; [apply Z.le_min_l|]. rewrite <- Hc. apply compress_m_trunc_limit.
+Qed.
+
+(* each interior bond is cut exactly once by the generated schedule, and receives min(kept count, len) *)
+Theorem gen_chain_cut_once : forall cc n to_right temp spectrum dims0, length dims0 = S n ->
+  forall b, (1 <= b <= n - 1)%nat ->
+    exists idx, In idx (compress_idx_list (Z.of_nat n) to_right) /\ update_ms_bond idx to_right = Z.of_nat b /\
+      nth b (compress_dims cc (Z.of_nat n) to_right temp spectrum dims0) 0
+        = compress_step_dim cc to_right temp (spectrum idx) idx.
+Proof.
+  intros cc n to_right temp spectrum dims0 L b Hb. rewrite compress_dims_eq, gen_idx_list_eq.
+  destruct (chain_dims_after_compress_gen (fun sigma idx l => compress_m_trunc cc l temp sigma idx)
+              spectrum n to_right dims0 L b Hb) as [idx [Hi [Hc Hv]]].
+  exists idx. split; [exact Hi|]. split; [exact Hc|]. rewrite Hv. reflexivity.
+Qed.
+
+(* global limit: CompressConfig(criteria, max_bonddim=M) without a per-bond list; compress() calls set_bonddim *)
+Theorem gen_chain_dims_global_M : forall crit thr M n to_right spectrum dims0, length dims0 = S n ->
+  crit <> Threshold ->
+  forall b, (1 <= b <= n - 1)%nat ->
+    nth b (compress_dims (mk_config crit thr (compress_max_dims crit None M (Z.of_nat n))) (Z.of_nat n) to_right TNone
+                         spectrum dims0) 0 <= M.
+Proof.
+  intros crit thr M n to_right spectrum dims0 L C b Hb.
+  pose proof (gen_chain_dims_after_compress (mk_config crit thr (compress_max_dims crit None M (Z.of_nat n)))
+                n to_right TNone spectrum dims0 L b Hb) as H.
+  cbn [limit_ok cfg_criteria cfg_max_dims] in H. specialize (H C).
+  unfold compress_max_dims, effective_max_dims, bonddim_should_set in H.
+  assert (forall k, (b < k)%nat -> nth b (repeat M k) 0 = M) as NR.
+  { intros k Hk. rewrite (nth_indep _ 0 M) by (rewrite repeat_length; exact Hk). apply nth_repeat. }
+  destruct crit; [congruence| |]; cbn in H; unfold py_index in H; rewrite Nat2Z.id in H;
+    rewrite NR in H by lia; exact H.
+Qed.
+
+(* trees *)
+Lemma tree_events_eq : forall t, tree_compress_events t = compress_recursion t.
+Proof.
+  induction t as [p cs IH] using tree_ind'. cbn [tree_compress_events compress_recursion].
+  induction IH as [|c r Hc _ IHr]; [reflexivity|].
+  rewrite IHr. cbv zeta. rewrite Hc. cbn [app]. reflexivity.
+Qed.
+
+Lemma tree_compress_dims_eq : forall cc temp spectrum qr_dim t dims,
+  tree_compress_dims cc temp spectrum qr_dim t dims
+  = tree_dims (fun sigma idx _ => compress_node_m_trunc cc temp sigma idx) spectrum qr_dim (compress_recursion t) dims.
+Proof. intros. unfold tree_compress_dims, tree_dims. rewrite tree_events_eq. reflexivity. Qed.
+
+Theorem gen_tree_visits : forall t, NoDup (preorder t) ->
+  truncated_children (tree_compress_events t) = tl (preorder t) /\ NoDup (truncated_children (tree_compress_events t)).
+Proof.
+  intros t H. rewrite tree_events_eq. split; [apply compress_recursion_visits|apply (proj1 (tree_exactly_once t H))].
+Qed.
+
+Theorem gen_tree_dims_after_compress : forall cc temp spectrum qr_dim, (forall c d, qr_dim c d <= d) ->
+  forall t dims0 c, In c (tl (preorder t)) ->
+    tree_compress_dims cc temp spectrum qr_dim t dims0 c <= compress_node_dim cc temp (spectrum c) (Z.of_nat c)
+    /\ limit_ok cc temp (Z.of_nat c) (tree_compress_dims cc temp spectrum qr_dim t dims0 c).
+Proof.
+  intros cc temp spectrum qr_dim Hq t dims0 c Hc. rewrite tree_compress_dims_eq.
+  rewrite <- compress_recursion_visits in Hc.
+  pose proof (tree_dims_truncated (fun sigma idx _ => compress_node_m_trunc cc temp sigma idx) spectrum qr_dim Hq _ dims0 c Hc) as H.
+  unfold bound in H. split; [exact H|].
+  eapply limit_ok_le; [exact H|]. eapply limit_ok_le; [apply Z.le_min_l|]. apply compress_node_m_trunc_limit.
+Qed.
+
+(* ======================================================================= Part E: the two spectral bounds from Ky Fan *)
+Section KyFan.
+  Variable R : OrdRing.
+  Variable E : InnerSpace R.
+  Add Ring Kring3 : (k_ring R).
+  Local Notation add := (kadd R).
+  Local Notation sub := (ksub R).
+  Local Notation le := (kle R).
+  Local Notation nsq := (@normsq R E).
+  Local Notation vminus := (vsub E).
+
+  Lemma kle_sub_l : forall a b c : R, le a b -> le (sub c b) (sub c a).
+  Proof.
+    intros a b c H. pose proof (kle_add R a b (sub (sub c a) b) H) as H1.
+    replace (add a (sub (sub c a) b)) with (sub c b) in H1 by ring.
+    replace (add b (sub (sub c a) b)) with (sub c a) in H1 by ring. exact H1.
+  Qed.
+
+  Lemma kle_sub_r : forall a b c : R, le a b -> le (sub a c) (sub b c).
+  Proof.
+    intros a b c H. pose proof (kle_add R a b (kopp R c) H) as H1.
+    replace (add a (kopp R c)) with (sub a c) in H1 by ring.
+    replace (add b (kopp R c)) with (sub b c) in H1 by ring. exact H1.
+  Qed.
+
+  (* |v|^2 = |Xv|^2 + |v - Xv|^2 for an orthogonal projector *)
+  Lemma pyth_proj : forall X v, orth_projector E X -> nsq (vminus v (X v)) = sub (nsq v) (nsq (X v)).
+  Proof.
+    intros X v [Hid Hsa].
+    assert (inner E v (X v) = nsq (X v)) as C.
+    { unfold normsq. rewrite (Hsa v (X v)), (Hid v). reflexivity. }
+    rewrite (normsq_sub R E), C. ring.
+  Qed.
+
+  Lemma proj_residual_le : forall X v, orth_projector E X -> le (nsq (vminus v (X v))) (nsq v).
+  Proof.
+    intros X v HX. rewrite (pyth_proj X v HX).
+    pose proof (kle_sub_l _ _ (nsq v) (inner_pos R E (X v))) as H.
+    replace (sub (nsq v) (k0 R)) with (nsq v) in H by ring. exact H.
+  Qed.
+
+  Section OneBond.
+    Variables (side right : (E -> E) -> Prop) (top : E -> R).
+    Hypothesis Hclass : projector_class E side right.
+    Hypothesis ky_fan_maximum_principle : ky_fan_principle E side right top.
+    Definition discarded_weight (v : E) : R := sub (nsq v) (top v).
+
+    (* interlacing in the form needed: an orthogonal projector acting on the OTHER tensor factor (it commutes
+       with every right-acting member) does not increase the discarded weight at this bond *)
+    Lemma left_projection_discard : forall P v, orth_projector E P -> additive E P ->
+      (forall Q w, right Q -> P (Q w) = Q (P w)) ->
+      le (discarded_weight (P v)) (discarded_weight v).
+    Proof.
+      intros P v HP HaddP Hcomm. destruct Hclass as [Hrs Hmem]. destruct ky_fan_maximum_principle as [KF1 KF2].
+      destruct (KF2 v) as [Q [HQr HQv]]. pose proof (Hrs Q HQr) as HQs. destruct (Hmem Q HQs) as [HQp HQa].
+      unfold discarded_weight.
+      (* |Pv|^2 - top(Pv) <= |Pv|^2 - |Q P v|^2 = |Pv - QPv|^2 = |P(v - Qv)|^2 <= |v - Qv|^2 = |v|^2 - top v *)
+      apply (kle_trans R _ (sub (nsq (P v)) (nsq (Q (P v))))); [apply kle_sub_l; apply KF1; exact HQs|].
+      rewrite <- (pyth_proj Q (P v) HQp). rewrite <- (Hcomm Q v HQr). rewrite <- (HaddP v (Q v)).
+      apply (kle_trans R _ (nsq (vminus v (Q v)))); [apply (projection_norm_nonincreasing R E); exact HP|].
+      rewrite (pyth_proj Q v HQp), HQv. apply (kle_refl R).
+    Qed.
+
+    (* Eckart-Young in the form needed: a vector fixed by some member (its Schmidt rank at the bond is <= m)
+       is at squared distance >= discarded weight *)
+    Lemma eckart_young_member : forall X v w, side X -> X w = w ->
+      le (discarded_weight v) (nsq (vminus v w)).
+    Proof.
+      intros X v w HXs Hw. destruct Hclass as [_ Hmem]. destruct ky_fan_maximum_principle as [KF1 _].
+      destruct (Hmem X HXs) as [HXp HXa].
+      apply (kle_trans R _ (nsq (vminus (vminus v w) (X (vminus v w))))); [|apply proj_residual_le; exact HXp].
+      assert (nsq (vminus (vminus v w) (X (vminus v w))) = nsq (vminus v (X v))) as Eq.
+      { rewrite (HXa v w), Hw. unfold normsq.
+        repeat (rewrite (inner_sub_l R E) || rewrite (inner_sub_r R E)). ring. }
+      rewrite Eq, (pyth_proj X v HXp). unfold discarded_weight. apply kle_sub_l. apply KF1. exact HXs.
+    Qed.
+  End OneBond.
+
+  (* the sweep: bond k is cut in step k *)
+  Variables (P : nat -> E -> E) (psi : nat -> E) (n : nat).
+  Variables (side right : nat -> (E -> E) -> Prop) (top : nat -> E -> R).
+  Hypothesis HP : forall k, (k < n)%nat -> orth_projector E (P k) /\ additive E (P k).
+  Hypothesis Hstep : forall k, (k < n)%nat -> psi (S k) = P k (psi k).
+  Hypothesis Hnest : forall j k, (j < k)%nat -> (k <= n)%nat -> P j (psi k) = psi k.
+  Hypothesis Hclass : forall k, (k < n)%nat -> projector_class E (side k) (right k).
+  (* THE spectral hypothesis *)
+  Hypothesis ky_fan_maximum_principle : forall k, (k < n)%nat -> ky_fan_principle E (side k) (right k) (top k).
+  (* SVD-step contract: the projector of step k is a member at its own bond and keeps the top-m weight *)
+  Hypothesis Hmember : forall k, (k < n)%nat -> side k (P k).
+  Hypothesis Hopt : forall k, (k < n)%nat -> nsq (psi (S k)) = top k (psi k).
+  (* tensor-factor structure: earlier projectors act on the left block of a later bond *)
+  Hypothesis Hcomm : forall j k, (j < k)%nat -> (k < n)%nat -> forall Q w, right k Q -> P j (Q w) = Q (P j w).
+
+  Lemma discard_monotone_along_sweep : forall k, (k < n)%nat -> forall j, (j <= k)%nat ->
+    le (discarded_weight (top k) (psi j)) (discarded_weight (top k) (psi 0%nat)).
+  Proof.
+    intros k Hk j. induction j as [|j IH]; intro Hj; [apply (kle_refl R)|].
+    apply (kle_trans R _ (discarded_weight (top k) (psi j))); [|apply IH; lia].
+    rewrite (Hstep j ltac:(lia)). destruct (HP j ltac:(lia)) as [Hp Ha].
+    apply (left_projection_discard (side k) (right k) (top k) (Hclass k Hk) (ky_fan_maximum_principle k Hk) (P j) (psi j) Hp Ha).
+    intros Q w HQ. apply (Hcomm j k ltac:(lia) Hk Q w HQ).
+  Qed.
+
+  Theorem bounds_from_ky_fan :
+    le (nsq (vminus (psi 0%nat) (psi n))) (ksum_upto (fun k => discarded_weight (top k) (psi 0%nat)) n)
+    /\ (forall k, (k < n)%nat -> le (discarded_weight (top k) (psi 0%nat)) (nsq (vminus (psi 0%nat) (psi n)))).
+  Proof.
+    assert (forall k, (k < n)%nat -> self_adjoint E (P k)) as Hsa by (intros k Hk; apply (proj2 (proj1 (HP k Hk)))).
+    split.
+    - destruct (nested_projection_pythagoras R E P psi n Hsa Hstep Hnest) as [A _]. rewrite A.
+      apply (ksum_upto_le R). intros k Hk.
+      apply (kle_trans R _ (discarded_weight (top k) (psi k))); [|apply discard_monotone_along_sweep; [exact Hk|lia]].
+      rewrite (dist_sq R E P psi n Hsa Hstep Hnest k (S k) ltac:(lia) ltac:(lia)).
+      unfold discarded_weight. rewrite (Hopt k Hk). apply (kle_refl R).
+    - intros k Hk. apply (eckart_young_member (side k) (right k) (top k) (Hclass k Hk) (ky_fan_maximum_principle k Hk) (P k)).
+      + apply Hmember; exact Hk.
+      + apply Hnest; lia.
+  Qed.
+End KyFan.
